@@ -335,6 +335,16 @@ fn to_orders<const N: usize>(v: Vec<[usize; N]>) -> Vec<Vec<usize>> {
     v.into_iter().map(|p| p.to_vec()).collect()
 }
 
+/// two 12-card sub-decks rich in near-misses: a six-card suited run with off-suit cards that pair its members, and a
+/// suited wheel-to-seven run with off-suit pairs; every 6- and 7-card hand of them is explored in EVERY slot order
+pub fn small_sub_decks() -> Vec<(String, Vec<Card>)> {
+    let c = Card::new;
+    vec![
+        ("{K..8}S + {K,9,8,2}H + {9,2}D".to_string(), vec![c(11, 3), c(10, 3), c(9, 3), c(8, 3), c(7, 3), c(6, 3), c(11, 2), c(7, 2), c(6, 2), c(0, 2), c(7, 1), c(0, 1)]),
+        ("{A,7,6,5,4,3,2}H + {A,4,7}C + {7,4}S".to_string(), vec![c(12, 2), c(5, 2), c(4, 2), c(3, 2), c(2, 2), c(1, 2), c(0, 2), c(12, 0), c(2, 0), c(5, 0), c(5, 3), c(2, 3)]),
+    ]
+}
+
 fn sub_deck(ranks: &[u8]) -> Vec<Card> {
     // deck order: suit-major like the full deck
     deck().iter().copied().filter(|c| ranks.contains(&c.rank())).collect()
@@ -349,6 +359,12 @@ fn run_mode(ctx: &Ctx, rep: &mut Report, mode: Mode) {
         sweep(ctx, rep, mode, &SpaceSpec { name: "6H x (6 rotations + reverse)".into(), note: "all 20,358,520 six-card subsets; by the P6 covering fact every five-card sub-hand meets every slot combination".into(), n: 6, cards: full.clone(), orders: &o6, rotate: None, extra_entries: true, full_universe: true });
         // 7H x (identity + one rotating member of P7)
         let o7 = to_orders(p7());
+        let all6 = permutations(6);
+        let all7 = permutations(7);
+        for (name, cards) in small_sub_decks() {
+            sweep(ctx, rep, mode, &SpaceSpec { name: format!("sub-deck {} : 6-card hands x all 720 orders", name), note: "every six-card hand of a 12-card sub-deck in every slot order".into(), n: 6, cards: cards.clone(), orders: &all6, rotate: None, extra_entries: false, full_universe: false });
+            sweep(ctx, rep, mode, &SpaceSpec { name: format!("sub-deck {} : 7-card hands x all 5040 orders", name), note: "every seven-card hand of a 12-card sub-deck in every arrangement of all seven slots".into(), n: 7, cards, orders: &all7, rotate: None, extra_entries: false, full_universe: false });
+        }
         sweep(ctx, rep, mode, &SpaceSpec { name: "7H x (canonical + 1 rotating P7 order)".into(), note: "all 133,784,560 seven-card subsets in canonical order, plus for each hand one further member of P7 chosen by hand index (every member is applied to ~1/20 of the universe)".into(), n: 7, cards: full.clone(), orders: &o7, rotate: Some(1), extra_entries: false, full_universe: true });
     } else {
         let o6 = permutations(6);
